@@ -587,14 +587,24 @@ func (u *Upstream) ackOrDone(ctx context.Context) <-chan *message.UpstreamChunkA
 }
 
 func (u *Upstream) readAckLoop(ctx context.Context) {
-	go u.readResultLoop(ctx)
-	go u.readAliasLoop(ctx)
+	var wg sync.WaitGroup
+	wg.Add(2)
+	go func() {
+		defer wg.Done()
+		u.readResultLoop(ctx)
+	}()
+	go func() {
+		defer wg.Done()
+		u.readAliasLoop(ctx)
+	}()
 
 	defer func() {
 		u.mu.Lock()
 		close(u.aliasCh)
 		close(u.resCh)
 		u.mu.Unlock()
+		// 次のrunが登録するAck待ちを、このrunの後始末が閉じてしまわないよう、終了を待ちます。
+		wg.Wait()
 	}()
 
 	for ack := range u.ackOrDone(ctx) {
